@@ -4,6 +4,7 @@
 package mi
 
 import (
+	"strings"
 	"bytes"
 	"crypto/sha256"
 	"encoding/binary"
@@ -49,7 +50,15 @@ func drawSetup(c *core.Ctx, maxRS, maxRecords int) setup {
 	// payload length: exact multiples, +-1, zero, one, arbitrary
 	k := c.Int("records", 0, maxRecords)
 	var n int
-	switch c.Pick("lenClass", 5) {
+	switch c.Pick("lenClass", 6) {
+	case 5:
+		// lengths at which buffers that grow by doubling are exactly full: a power of two from
+		// 4096 up, plus room for 0-2 proofs, give or take one (short of one record where the
+		// record size allows)
+		n = c.PickInt("len.pow", 4096, 8192, 16384, 2048) + 32*c.Int("len.proofs", 0, 2) + c.PickInt("len.delta", -1, 0, 0, 1)
+		if maxRecords*s.rs < n {
+			n = maxRecords * s.rs
+		}
 	case 0:
 		n = k * s.rs
 	case 1:
@@ -580,11 +589,33 @@ func checkSafety(c *core.Ctx, name string, rr readResult, auth []byte, complete 
 	}
 }
 
+// consumedBySource reports how many bytes of the stream the decoder under test has
+// taken from its source (set by runDecoder for the source type it drew).
+var consumedBySource func() int
+
 func runDecoder(c *core.Ctx, s setup, stream []byte, digest string, maxRS uint64, plan core.ReaderPlan, retries int) (rr readResult, created bool, sr *core.SimReader) {
 	sr = c.NewReader("chan", stream, plan)
+	var src io.Reader = sr
+	consumedBySource = sr.Consumed
+	if plan.ErrAt < 0 && plan.Stalls == 0 && c.Chance("chan.inMemory", 1, 5) {
+		// the stream sits in memory (what the repository's own callers pass): the reader types
+		// that expose how much is left
+		switch c.Pick("chan.inMemoryType", 3) {
+		case 0:
+			r := bytes.NewReader(stream)
+			src, consumedBySource = r, func() int { return len(stream) - r.Len() }
+		case 1:
+			r := bytes.NewBuffer(append([]byte(nil), stream...))
+			src, consumedBySource = r, func() int { return len(stream) - r.Len() }
+		default:
+			r := strings.NewReader(string(stream))
+			src, consumedBySource = r, func() int { return len(stream) - r.Len() }
+		}
+		c.Probe("decoder source is an in-memory reader")
+	}
 	var dec io.Reader
 	var err error
-	pi, alloc := c.GuardAlloc("mice.NewDecoder", func() { dec, err = s.enc.NewDecoder(sr, digest, maxRS) })
+	pi, alloc := c.GuardAlloc("mice.NewDecoder", func() { dec, err = s.enc.NewDecoder(src, digest, maxRS) })
 	if c.Oracle("C10", "C15") {
 		c.CheckTotal("mice.NewDecoder", len(stream), pi, alloc)
 	}
@@ -632,7 +663,7 @@ func TestChannelFaults(t *testing.T) {
 				// (a limit of 0 admits no record size at all)
 				maxRS = uint64(c.PickInt("maxRS", s.rs-1, s.rs, s.rs+1, 0))
 			}
-			rr, created, sr := runDecoder(c, s, bad, digest, maxRS, plan, c.Int("caller.retries", 0, 3))
+			rr, created, _ := runDecoder(c, s, bad, digest, maxRS, plan, c.Int("caller.retries", 0, 3))
 			if c.Oracle("C15") {
 				// The digest is honest: the unique committed payload is s.payload.
 				unchanged := bytes.Equal(bad, stream)
@@ -648,8 +679,8 @@ func TestChannelFaults(t *testing.T) {
 				}
 				if !created && len(bad) >= 8 {
 					rsv := binary.BigEndian.Uint64(bad[:8])
-					if (rsv == 0 || rsv > maxRS) && sr.Consumed() != 8 && plan.ErrAt < 0 {
-						c.Violation("read-before-refusal", "mice.NewDecoder", "record size %d refused after consuming %d bytes", rsv, sr.Consumed())
+					if (rsv == 0 || rsv > maxRS) && consumedBySource() != 8 && plan.ErrAt < 0 {
+						c.Violation("read-before-refusal", "mice.NewDecoder", "record size %d refused after consuming %d bytes", rsv, consumedBySource())
 					}
 					if rsv == 0 || rsv > maxRS {
 						c.Probe("record size refused (0 or above limit)")
